@@ -13,9 +13,10 @@ MANIFEST = {
             "exactly one write carrying all of these (none when the block is rejected / the deletion refused); for every history and "
             "every cut at an action boundary the recovered state is Consistent (height index <-> data, contiguous index, BFT store "
             "height = tip, no diff without its block) and equals the state before or after the interrupted step; a Consistent database "
-            "restarts on the tip its index names. Tie: (a) op log — file syncs are counted on a wrapped strict MemFS during every step "
-            "of random scenarios and must equal the model's number of writes, and the projected database after the step must equal the "
-            "model batch applied to the database before; (b) fault enumeration — for EVERY sync boundary inside every step the scenario "
+            "restarts on the tip its index names. Tie: (a) op log — the commit records appended to pebble's write-ahead log during every step "
+            "of the scenarios are counted (read back with pebble's record reader) and must equal the model's number of writes (at most one), "
+            "and the projected database after the step must equal the model batch applied to the database before, where finalized height, "
+            "pruned diffs / event lists, payload / temp entries and the restored consensus store are derived independently of the dump; (b) fault enumeration — for EVERY sync boundary inside every step the scenario "
             "is re-run, later syncs are dropped, the process dies (unsynced data lost), the database is reopened, Init/PrepareCache run: "
             "the recovered database must be byte-identical to the dump before or after the step, Consistent, and accept a valid "
             "successor of its tip.",
@@ -84,45 +85,75 @@ def opt(x):
     return "None" if x is None else "(Some %d)" % x
 
 
-def cop_term(it, r):
+def cop_term(it, r, snap=None):
+    """The operation the model applies to `before`.  Derived INDEPENDENTLY of the `after` dump: finalized height (max of the stored
+    one and the vote module's post-state maxHeightPrecommited), pruned diffs (every stored diff below the new finalized height when
+    it rose), pruned event lists (keepEventsForHeights rule), presence of payload / events / temp entries and the temp value (digest
+    of the encoded block), and for deletions the restored consensus store (the store observed before that block was added).
+    Taken from the implementation's `after` dump (and therefore not checked here, see docs/C13.md): the CONTENT of the
+    consensus-store writes and of the revert diff of an added block (C02/C05/C12 own them), and the content of the event list."""
     b, a = as_map(r["before"]), as_map(r["after"])
     idc = it.code("id:" + r["id"])
     h = r["h"]
-    cs = []
-    for k in sorted(set(b) | set(a)):
-        if k[0] != "state":
-            continue
-        if k in a and (k not in b or b[k]["v"] != a[k]["v"]):
-            cs.append("(%d, Some %d)" % (it.code("k:state" + k[1]), val(it, a[k])))
-        elif k not in a:
-            cs.append("(%d, None)" % it.code("k:state" + k[1]))
-    cs = "[" + "; ".join(cs) + "]"
+
+    def cs_writes(frm, to):
+        out = []
+        for k in sorted(set(frm) | set(to)):
+            if k[0] != "state":
+                continue
+            if k in to and (k not in frm or frm[k]["v"] != to[k]["v"]):
+                out.append("(%d, Some %d)" % (it.code("k:state" + k[1]), val(it, to[k])))
+            elif k not in to:
+                out.append("(%d, None)" % it.code("k:state" + k[1]))
+        return "[" + "; ".join(out) + "]"
     if r["op"] in ("add", "add_invalid", "restore", "genesis"):
-        diff = val(it, a[("diff", str(h))]) if ("diff", str(h)) in a else 0
-        prune = sorted(int(k[1]) for k in b if k[0] == "diff" and k not in a)
-        evprune = sorted(int(k[1]) for k in b if k[0] == "events" and k not in a)
-        ev = val(it, a[("events", str(h))]) if ("events", str(h)) in a else None
-        fin = int(a[("fin", "0")]["v"]) if ("fin", "0") in a else 0
+        cs = cs_writes(b, a)                                                   # content from the implementation
+        diff = val(it, a[("diff", str(h))]) if ("diff", str(h)) in a else 0     # content from the implementation
+        fin0 = int(b[("fin", "0")]["v"]) if ("fin", "0") in b else 0
+        fin = max(fin0, r.get("p", 0)) if r["op"] != "genesis" else h
+        prune = sorted(int(k[1]) for k in b if k[0] == "diff" and int(k[1]) < fin) if fin > fin0 else []
+        evprune = []
+        keep = r.get("keep", -1)
+        if keep > -1 and r["op"] != "genesis":
+            lim = min(fin, max(0, h - keep))
+            if lim > 0:
+                evprune = sorted(int(k[1]) for k in b if k[0] == "events" and int(k[1]) <= lim)
+        ev = None
+        if r.get("nevents", 0) > 0:
+            ev = val(it, a[("events", str(h))]) if ("events", str(h)) in a else it.code("missing-events")
         return "(CAdd (mkAdd %s %d %d %s %d %s %s %s %d %s %s))" % (
-            cbool(r["expect_ok"]), idc, h, cs, diff, clist(prune), cbool(("body", r["id"]) in a), opt(ev), fin, clist(evprune),
+            cbool(r["expect_ok"]), idc, h, cs, diff, clist(prune), cbool(r.get("has_body", False)), opt(ev), fin, clist(evprune),
             cbool(r.get("rt", False)))
-    tmp = val(it, a[("temp", str(h))]) if (r["save"] and ("temp", str(h)) in a) else None
-    return "(CDel (mkDel %s %d %d %s %s %s))" % (cbool(r["expect_ok"]), idc, h, cs, cbool(("body", r["id"]) in b), opt(tmp))
+    # deletion: the consensus store must go back to what it was before this block was added (when that state was observed)
+    target = snap.get(r["id"]) if snap else None
+    cs = cs_writes(b, target) if target is not None else cs_writes(b, a)
+    tmp = it.code("v:" + r["temp_digest"]) if r["save"] else None
+    return "(CDel (mkDel %s %d %d %s %s %s))" % (cbool(r["expect_ok"]), idc, h, cs, cbool(r.get("has_body", False)), opt(tmp))
 
 
-def step_term(r):
+def payload_ids(it, *dumps):
+    ids = sorted(set(e["a"] for d in dumps for e in (d or []) if e["c"] == "header" and e.get("p")))
+    return clist([it.code("id:" + x) for x in ids])
+
+
+def step_term(r, snap=None):
     it = Intern()
-    op = cop_term(it, r)
-    return "(mkSC %s %s %s %d %s)" % (ldb(it, r["before"]), ldb(it, r["after"]), op, r["commits"], cbool(r["impl_ok"]))
+    if r["op"] == "cleartemp":
+        op = "(CClearTemp %s)" % clist(sorted(int(e["a"]) for e in r["before"] if e["c"] == "temp"))
+    else:
+        op = cop_term(it, r, snap)
+    return "(mkSC %s %s %s %d %s %s)" % (ldb(it, r["before"]), ldb(it, r["after"]), op, r["commits"], cbool(r["impl_ok"]),
+                                        payload_ids(it, r["before"], r["after"]))
 
 
 def crash_term(r):
     it = Intern()
     before, after, rec = ldb(it, r["before"]), ldb(it, r["after"]), ldb(it, r.get("recovered") or [])
     restore = "(Some (%d, %d))" % (r["h"], it.code("id:" + r["id"])) if r.get("rt") else "None"
-    return "(mkCC %s %s %s %s %s %s %s %d %d %d %s)" % (
+    return "(mkCC %s %s %s %s %s %s %s %d %d %d %s %s)" % (
         before, after, rec, cbool(r["eq_before"]), cbool(r["eq_after"]),
-        cbool(r["reopen_ok"]), cbool(r["next_ok"]), r["j"], r["syncs"], r["first_wal"], restore)
+        cbool(r["reopen_ok"]), cbool(r["next_ok"]), r["j"], r["syncs"], r["first_wal"], restore,
+        payload_ids(it, r["before"], r["after"], r.get("recovered")))
 
 
 def evaluate(ck, recs):
@@ -142,7 +173,15 @@ def evaluate(ck, recs):
         for i, v in zip(heavy, rh):
             out[i] = v
         return out
-    rs = ev(steps, "step_case", "check_step", step_term, "step")
+    snaps = {}
+    pre_add = {}
+    for r in steps:
+        if r["op"] in ("add", "restore", "genesis") and r.get("impl_ok"):
+            pre_add[(r["scenario"], r["id"])] = as_map(r["before"])
+    for r in steps:
+        if r["op"] in ("del", "del_refused"):
+            snaps[id(r)] = {r["id"]: pre_add.get((r["scenario"], r["id"]))} if (r["scenario"], r["id"]) in pre_add else None
+    rs = ev(steps, "step_case", "check_step", lambda r: step_term(r, snaps.get(id(r))), "step")
     rc = ev(crashes, "crash_case", "check_crash", crash_term, "crash")
     for rr, res, kind in ((steps, rs, "step"), (crashes, rc, "crash")):
         if res is None:
@@ -208,7 +247,19 @@ def run(ck):
                       "heights, diff pruning). Step cases: one per step (durable commits = records appended to the write-ahead log). "
                       "Crash cases: one per (step, file-sync boundary), every boundary enumerated. Distinct = (kind, family, op, "
                       "boundary, syncs, outcome, database size class, finality jump >= 2, payload MiB)")
-    ck.cov["exhaustive"] = True
+    # exhaustive = for every non-set-up step the crash records cover every boundary j = 0..syncs of (some run of) that step
+    cover = {}
+    for r in cr:
+        if not r.get("torn"):
+            cover.setdefault((r["scenario"], r["t"]), []).append((r["j"], r["syncs"]))
+    # (the number of syncs of a step can differ between re-runs — background flushes — so: contiguous from 0 up to a run in
+    # which every sync of the step had reached the disk)
+    complete = all(sorted(set(j for j, _ in v)) == list(range(len(set(j for j, _ in v)))) and any(j >= sy for j, sy in v)
+                   for v in cover.values())
+    stepped = set((r["scenario"], r["t"]) for r in st)
+    ck.cov["exhaustive"] = bool(cover) and complete and stepped <= set(cover)
+    ck.extra["torn_tail_crash_points"] = sum(1 for r in cr if r.get("torn"))
+    ck.extra["cleartemp_steps"] = sum(1 for r in st if r["op"] == "cleartemp")
     ck.extra["exhaustive_domain"] = "all file-sync boundaries inside every step of the generated scenarios"
     ck.extra["crash_points"] = len(cr)
     ck.extra["steps"] = len(st)
